@@ -186,9 +186,9 @@ func c02ERun(c string) string {
 		}
 		var err error
 		if f[0] == "np" {
-			err = client.SendNodePoints(nc, c02ID(prefix, string(unhx(f[1]))), pts, true)
+			err = noteTmo(client.SendNodePoints(nc, c02ID(prefix, string(unhx(f[1]))), pts, true))
 		} else {
-			err = client.SendEdgePoints(nc, c02ID(prefix, string(unhx(f[1]))), c02ID(prefix, string(unhx(f[2]))), pts, true)
+			err = noteTmo(client.SendEdgePoints(nc, c02ID(prefix, string(unhx(f[1]))), c02ID(prefix, string(unhx(f[2]))), pts, true))
 		}
 		if err != nil {
 			return "err"
@@ -269,9 +269,9 @@ func c02Run(c string) string {
 		}
 		var err error
 		if f[0] == "np" {
-			err = client.SendNodePoints(nc, c02ID(prefix, string(unhx(f[1]))), pts, true)
+			err = noteTmo(client.SendNodePoints(nc, c02ID(prefix, string(unhx(f[1]))), pts, true))
 		} else {
-			err = client.SendEdgePoints(nc, c02ID(prefix, string(unhx(f[1]))), c02ID(prefix, string(unhx(f[2]))), pts, true)
+			err = noteTmo(client.SendEdgePoints(nc, c02ID(prefix, string(unhx(f[1]))), c02ID(prefix, string(unhx(f[2]))), pts, true))
 		}
 		if err != nil {
 			return "err"
@@ -288,7 +288,7 @@ func c02Run(c string) string {
 		c02Starts = append(c02Starts, now)
 		switch {
 		case tok == "s":
-			err := client.VerifSyncOnce(c02A.nc, c02Local, c02Remote, "verif-sync", "RA", prefix+"G")
+			err := noteTmo(client.VerifSyncOnce(c02A.nc, c02Local, c02Remote, "verif-sync", "RA", prefix+"G"))
 			if err != nil {
 				acc = append(acc, "serr")
 			} else {
